@@ -1,4 +1,16 @@
 import SpecterModel.C31.Model
+/-!
+# C31 — Proof-of-work checks accept exactly the valid proofs
+
+Theorems about the model in `Model.lean` (tied to `/repo` differentially by `harness/cmd/c31`).
+External: `sha` (SHA-256) is an arbitrary function returning bytes; `sigOK` is the verdict of `ed25519.Verify`;
+`b64` (`base64.RawURLEncoding`) is an arbitrary function with non-empty, ':'-free output (validated by the harness).
+
+* `verifyBits_iff`        — the bit test = "at least `bits` leading zero bits", all bit counts, all hashes
+* `verifySolution_iff`    — exact acceptance condition of `pow.VerifySolution`
+* `parse_toStr`           — `Parse(String(h)) = h` for well-formed stamps
+* `solve_sound`, `solved_proof_accepted` — what the solver returns is accepted under the same parameters
+-/
 namespace Specter.C31
 
 def lz8 (b : Nat) : Nat := ((byteBits b).takeWhile (· == false)).length
@@ -204,4 +216,255 @@ theorem hcVerify_ok_iff (sha : Bytes → Bytes) (hsha : ∀ s, ∀ b ∈ sha s, 
     simp [hn, this]
   · rw [if_neg hn, verifyBits_iff _ _ (hsha _) (by omega)]
     by_cases hd : h.difficulty ≤ leadingZeroBits (sha (toStr h)) <;> simp [hd]
+
+
+theorem colon_not_digit (n : Nat) : colon ∉ dec n := fun h => by
+  have := dec_digits n colon h; simp [isDigit, colon] at this
+
+/-- well-formed stamp: what `New` + `Solve` produce (fields without ':', numbers in int64 range) -/
+structure WF (h : Hashcash) : Prop where
+  diff : h.difficulty < 2^63
+  exp : ∀ e, h.expiresAt = some e → e < 2^63
+  sub : colon ∉ h.subject
+  nonce : colon ∉ h.nonce
+  alg : colon ∉ h.alg
+  sol : colon ∉ h.solution
+
+theorem parseExp_expStr (x : Option Nat) (hx : ∀ e, x = some e → e < 2^63) : parseExp (expStr x) = some x := by
+  cases x with
+  | none => simp [parseExp, expStr]
+  | some e =>
+    simp only [expStr, parseExp, if_neg (dec_ne_nil e), parseGoInt_dec e (hx e rfl)]
+    simp
+
+theorem colon_not_expStr (x : Option Nat) : colon ∉ expStr x := by
+  cases x with
+  | none => simp [expStr]
+  | some e => exact colon_not_digit e
+
+theorem parseFields_ok (h : Hashcash) (w : WF h) :
+    parseFields tagH (dec h.difficulty) (expStr h.expiresAt) h.subject h.nonce h.alg h.solution = .ok h := by
+  unfold parseFields
+  rw [if_neg (by simp), parseGoInt_dec _ w.diff]
+  simp only [parseExp_expStr _ w.exp]
+  rw [if_neg (by omega)]; simp
+
+/-- `Parse(h.String()) = h` for every well-formed stamp (solved or not) -/
+theorem parse_toStr (h : Hashcash) (w : WF h) : parse (toStr h) = .ok h := by
+  have hT : colon ∉ tagH := by decide
+  have hparts : ∀ q ∈ [tagH, dec h.difficulty, expStr h.expiresAt, h.subject, h.nonce, h.alg], colon ∉ q := by
+    intro q hq; simp at hq
+    rcases hq with rfl | rfl | rfl | rfl | rfl | rfl
+    · exact hT
+    · exact colon_not_digit _
+    · exact colon_not_expStr _
+    · exact w.sub
+    · exact w.nonce
+    · exact w.alg
+  unfold parse toStr
+  by_cases hs : h.solution = []
+  · rw [if_pos hs, List.append_nil, splitOn_join colon _ _ hparts]
+    simp only; rw [← hs]; exact parseFields_ok h w
+  · have e : join colon [tagH, dec h.difficulty, expStr h.expiresAt, h.subject, h.nonce, h.alg] ++ colon :: h.solution
+        = join colon [tagH, dec h.difficulty, expStr h.expiresAt, h.subject, h.nonce, h.alg, h.solution] := by
+      simp [join]
+    rw [if_neg hs, e, splitOn_join colon _ _ (by
+      intro q hq; simp at hq
+      rcases hq with rfl | rfl | rfl | rfl | rfl | rfl | rfl
+      · exact hT
+      · exact colon_not_digit _
+      · exact colon_not_expStr _
+      · exact w.sub
+      · exact w.nonce
+      · exact w.alg
+      · exact w.sol)]
+    exact parseFields_ok h w
+
+theorem not_expired_iff (h : Hashcash) (e : Nat) (he : h.expiresAt = some e) (now : Int) :
+    expired h.expiresAt now = false ↔ now ≤ expNs e := by
+  constructor
+  · intro hx
+    cases hlt : decide (expNs e < now) with
+    | false => simpa using hlt
+    | true =>
+      have : expired h.expiresAt now = true := (expired_iff _ _).mpr ⟨e, he, by simpa using hlt⟩
+      rw [hx] at this; cases this
+  · intro hle
+    cases hx : expired h.expiresAt now with
+    | false => rfl
+    | true => obtain ⟨e2, h2e, hlt⟩ := (expired_iff _ _).mp hx; rw [he] at h2e; cases h2e; omega
+
+theorem verifyParsed_iff (sha : Bytes → Bytes) (hsha : ∀ s, ∀ b ∈ sha s, b < 256) (h : Hashcash)
+    (required expiresNs : Nat) (subject : Bytes) (now1 now2 : Int) (hE : 2 * (expiresNs : Int) < 2^63 - 1) :
+    verifyParsed sha h required expiresNs subject now1 now2 = .ok ↔
+      h.difficulty = required ∧ ∃ e, h.expiresAt = some e ∧
+        expNs e - 2 * (expiresNs : Int) ≤ now1 ∧ now1 ≤ expNs e + 2 * (expiresNs : Int) ∧ now2 ≤ expNs e ∧
+        h.alg = algSHA256 ∧ h.subject = subject ∧ required ≤ leadingZeroBits (sha (toStr h)) := by
+  have hv := hcVerify_ok_iff sha hsha h subject now2
+  constructor
+  · intro hres
+    by_cases hd : h.difficulty = required
+    case neg => simp [verifyParsed, hd] at hres
+    cases he : h.expiresAt with
+    | none => simp [verifyParsed, hd, he] at hres
+    | some e =>
+      have hw := window_iff (now1 - expNs e) expiresNs hE
+      by_cases hfar : absDur (satDur (now1 - expNs e)) > 2 * (expiresNs : Int)
+      · simp [verifyParsed, hd, he, hfar] at hres
+      · have hin : ¬ (now1 - expNs e < -(2 * (expiresNs : Int)) ∨ now1 - expNs e > 2 * (expiresNs : Int)) :=
+          fun x => hfar (hw.mpr x)
+        cases hr : hcVerify sha h subject now2 with
+        | error err => simp [verifyParsed, hd, he, hfar, hr] at hres
+        | ok u =>
+          obtain ⟨ha, hx, hs, hl⟩ := hv.mp hr
+          exact ⟨hd, e, rfl, by omega, by omega, (not_expired_iff h e he now2).mp hx, ha, hs, by omega⟩
+  · rintro ⟨hd, e, he, a, b, c, ha, hs, hl⟩
+    have hr : hcVerify sha h subject now2 = .ok () :=
+      hv.mpr ⟨ha, (not_expired_iff h e he now2).mpr c, hs, by omega⟩
+    have hw := window_iff (now1 - expNs e) expiresNs hE
+    have hfar : ¬ absDur (satDur (now1 - expNs e)) > 2 * (expiresNs : Int) := fun x => by
+      rcases hw.mp x with y | y <;> omega
+    simp [verifyParsed, hd, he, hr, hfar]
+
+/-- **C31 acceptance condition.** `VerifySolution` returns success exactly when: key/signature have ed25519 sizes, the
+signature over the solution string verifies under the presented key, the solution parses as a hashcash stamp `h` whose
+difficulty is the required one, whose expiry `e` is set, not before `now2` (not expired) and at most `2·Expires` after `now1`
+(within the window), whose algorithm is SHA-256, whose subject is the expected one, and SHA-256 of the canonical stamp string
+starts with at least `required` zero bits.  (`now1 ≤ now2` are the two clock readings.) -/
+theorem verifySolution_iff (sha : Bytes → Bytes) (hsha : ∀ s, ∀ b ∈ sha s, b < 256)
+    (pubLen sigLen : Nat) (solution : Bytes) (sigOK : Bool) (required expiresNs : Nat) (subject : Bytes) (now1 now2 : Int)
+    (hE : 2 * (expiresNs : Int) < 2^63 - 1) :
+    verifySolution sha pubLen sigLen solution sigOK required expiresNs subject now1 now2 = .ok ↔
+      pubLen = 32 ∧ sigLen = 64 ∧ sigOK = true ∧
+      ∃ h e, parse solution = .ok h ∧ h.difficulty = required ∧ h.expiresAt = some e ∧
+        expNs e - 2 * (expiresNs : Int) ≤ now1 ∧ now1 ≤ expNs e + 2 * (expiresNs : Int) ∧ now2 ≤ expNs e ∧
+        h.alg = algSHA256 ∧ h.subject = subject ∧ required ≤ leadingZeroBits (sha (toStr h)) := by
+  constructor
+  · intro hres
+    unfold verifySolution at hres
+    by_cases h1 : pubLen = 32
+    case neg => simp [h1] at hres
+    by_cases h2 : sigLen = 64
+    case neg => simp [h1, h2] at hres
+    by_cases h3 : solution = []
+    · simp [h1, h2, h3] at hres
+    by_cases h4 : sigOK = true
+    case neg => simp [h1, h2, h3, h4] at hres
+    cases hp : parse solution with
+    | error err => simp [h1, h2, h3, h4, hp] at hres
+    | ok h =>
+      simp only [h1, h2, h3, h4, hp, ne_eq, not_true_eq_false, if_false, Bool.not_true] at hres
+      obtain ⟨hd, e, he, rest⟩ := (verifyParsed_iff sha hsha h required expiresNs subject now1 now2 hE).mp (by simpa using hres)
+      exact ⟨h1, h2, h4, h, e, rfl, hd, he, rest⟩
+  · rintro ⟨h1, h2, h4, h, e, hp, hd, he, rest⟩
+    have h3 : solution ≠ [] := by
+      intro h3; subst h3; simp [parse, splitOn, split1] at hp
+    have := (verifyParsed_iff sha hsha h required expiresNs subject now1 now2 hE).mpr ⟨hd, e, he, rest⟩
+    simp [verifySolution, h1, h2, h3, h4, hp, this]
+
+/-! ## Solve -/
+
+theorem solveLoop_sound (sha b64 : Bytes → Bytes) (pre : Bytes) (bits : Nat) (fuel c : Nat) (sol : Bytes)
+    (h : solveLoop sha b64 pre bits fuel c = some sol) :
+    (∃ c', sol = b64 (le32 c')) ∧ nBytes bits ≤ (sha (pre ++ colon :: sol)).length ∧
+      verifyBits ((sha (pre ++ colon :: sol)).take (nBytes bits)) bits (nBytes bits) = some true := by
+  induction fuel generalizing c with
+  | zero => simp [solveLoop] at h
+  | succ f ih =>
+    simp only [solveLoop] at h
+    split at h
+    · rename_i hc; cases h; exact ⟨⟨c, rfl⟩, hc.1, hc.2⟩
+    · exact ih _ h
+
+theorem toStr_solved (h : Hashcash) (sol : Bytes) (hs : sol ≠ []) :
+    toStr { h with solution := sol } = toStr { h with solution := [] } ++ colon :: sol := by
+  simp [toStr, hs]
+
+/-- **Solver output passes the bit test and keeps the parameters.**  Whatever stamp `Solve` returns (the fresh search or the
+early return for an already valid solution) has the same difficulty/expiry/subject/nonce, algorithm SHA-256, and its
+canonical string hashes to at least `difficulty` leading zero bits. -/
+theorem solve_sound (sha b64 : Bytes → Bytes) (hsha : ∀ s, ∀ b ∈ sha s, b < 256) (hb64 : ∀ x, b64 x ≠ [])
+    (h h' : Hashcash) (maxD : Nat) (now : Int) (fuel : Nat) (hs : solve sha b64 h maxD now fuel = .ok h') :
+    h'.difficulty = h.difficulty ∧ h'.expiresAt = h.expiresAt ∧ h'.subject = h.subject ∧ h'.nonce = h.nonce ∧
+      h'.alg = algSHA256 ∧ h.difficulty ≤ maxD ∧ h.difficulty ≤ maxDifficulty ∧
+      h.difficulty ≤ leadingZeroBits (sha (toStr h')) := by
+  unfold solve at hs
+  by_cases ha : h.alg = algSHA256
+  case neg => simp [ha] at hs
+  by_cases hd : h.difficulty > maxD ∨ h.difficulty > maxDifficulty
+  · simp [ha, hd] at hs
+  have hd1 : h.difficulty ≤ maxD := by omega
+  have hd2 : h.difficulty ≤ maxDifficulty := by omega
+  by_cases hv : h.solution ≠ [] ∧ isOk (hcVerify sha h h.subject now) = true
+  · rw [if_neg (fun x => x ha), if_neg hd, if_pos hv] at hs
+    cases hs
+    have : hcVerify sha h h.subject now = .ok () := by
+      cases hr : hcVerify sha h h.subject now with
+      | error e => have := hv.2; simp [hr, isOk] at this
+      | ok u => rfl
+    have := (hcVerify_ok_iff sha hsha h h.subject now).mp this
+    exact ⟨rfl, rfl, rfl, rfl, ha, hd1, hd2, this.2.2.2⟩
+  · rw [if_neg (fun x => x ha), if_neg hd, if_neg hv] at hs
+    cases hl : solveLoop sha b64 (toStr { h with solution := [] }) h.difficulty fuel 0 with
+    | none => simp [hl] at hs
+    | some sol =>
+      simp only [hl] at hs; cases hs
+      obtain ⟨⟨c', hc'⟩, hn, hvb⟩ := solveLoop_sound _ _ _ _ _ _ _ hl
+      have hne : sol ≠ [] := by rw [hc']; exact hb64 _
+      refine ⟨rfl, rfl, rfl, rfl, ha, hd1, hd2, ?_⟩
+      rw [toStr_solved h sol hne]
+      rw [verifyBits_iff _ _ (hsha _) hn] at hvb
+      simpa using hvb
+
+/-- **Solver-produced proofs are accepted.**  Take a fresh stamp `h` (as built by `hashcash.New` in `GenerateSolution`:
+subject = `GetSubject pubKey`, expiry `e`), let `Solve` return `h'`, sign `h'.String()` with the key (hypothesis `sigOK = true`
+is ed25519 correctness) and present it to `VerifySolution` with the same parameters while `now1 ≤ now2 ≤ e` and
+`e ≤ now1 + 2·Expires`: it is accepted. -/
+theorem solved_proof_accepted (sha b64 : Bytes → Bytes) (hsha : ∀ s, ∀ b ∈ sha s, b < 256)
+    (hb64 : ∀ x, b64 x ≠ [] ∧ colon ∉ b64 x)
+    (h h' : Hashcash) (w : WF h) (maxD : Nat) (now0 : Int) (fuel : Nat) (hsol : h.solution = [])
+    (hs : solve sha b64 h maxD now0 fuel = .ok h')
+    (e : Nat) (he : h.expiresAt = some e) (expiresNs : Nat) (hE : 2 * (expiresNs : Int) < 2^63 - 1) (now1 now2 : Int)
+    (hw1 : expNs e - 2 * (expiresNs : Int) ≤ now1) (hw2 : now1 ≤ now2) (hw3 : now2 ≤ expNs e) :
+    verifySolution sha 32 64 (toStr h') true h.difficulty expiresNs h.subject now1 now2 = .ok := by
+  obtain ⟨e1, e2, e3, e4, e5, _, _, e6⟩ := solve_sound sha b64 hsha (fun x => (hb64 x).1) h h' maxD now0 fuel hs
+  have w' : WF h' := by
+    refine ⟨e1 ▸ w.diff, e2 ▸ w.exp, e3 ▸ w.sub, e4 ▸ w.nonce, by rw [e5]; decide, ?_⟩
+    -- the solution is a base64 string (no ':')
+    unfold solve at hs
+    by_cases ha : h.alg = algSHA256
+    case neg => simp [ha] at hs
+    by_cases hd : h.difficulty > maxD ∨ h.difficulty > maxDifficulty
+    · simp [ha, hd] at hs
+    rw [if_neg (fun x => x ha), if_neg hd, if_neg (fun x => x.1 hsol)] at hs
+    cases hl : solveLoop sha b64 (toStr { h with solution := [] }) h.difficulty fuel 0 with
+    | none => simp [hl] at hs
+    | some sol =>
+      simp only [hl] at hs; cases hs
+      obtain ⟨⟨c', hc'⟩, _, _⟩ := solveLoop_sound _ _ _ _ _ _ _ hl
+      show colon ∉ sol
+      rw [hc']; exact (hb64 _).2
+  exact (verifySolution_iff sha hsha 32 64 (toStr h') true h.difficulty expiresNs h.subject now1 now2 hE).mpr
+    ⟨rfl, rfl, rfl, h', e, parse_toStr h' w', e1, by rw [e2, he], hw1, by omega, hw3, e5, e3, e6⟩
+
+/-! ## non-vacuity -/
+
+def shaZ : Bytes → Bytes := fun _ => List.replicate 32 0     -- a "hash" with 256 leading zero bits
+def shaF : Bytes → Bytes := fun _ => 0 :: 63 :: List.replicate 30 255   -- exactly 10 leading zero bits
+def b64A : Bytes → Bytes := fun _ => [65]
+def stamp : Bytes := [72,58,49,48,58,49,48,48,58,115,58,110,58,83,72,65,45,50,53,54,58,65]  -- "H:10:100:s:n:SHA-256:A"
+def stamp0 : Hashcash := { difficulty := 10, expiresAt := some 100, subject := [115], nonce := [110], alg := algSHA256, solution := [] }
+
+example : leadingZeroBits (shaF []) = 10 := by decide
+example : verifyBits ((shaF []).take (nBytes 10)) 10 (nBytes 10) = some true := by decide
+example : verifyBits ((shaF []).take (nBytes 11)) 11 (nBytes 11) = some false := by decide
+example : verifySolution shaF 32 64 stamp true 10 10000000000 [115] 95000000000 95000000001 = .ok := by decide
+example : verifySolution shaF 32 64 stamp true 10 10000000000 [115] 100000000001 100000000001 = .verify .expired := by decide
+example : verifySolution shaF 32 64 stamp true 10 10000000000 [115] 79999999999 80000000000 = .tooFar := by decide
+example : verifySolution shaF 32 64 stamp true 11 10000000000 [115] 95000000000 95000000001 = .wrongDifficulty := by decide
+example : verifySolution shaF 32 64 stamp true 10 10000000000 [116] 95000000000 95000000001 = .verify .subject := by decide
+example : (match parse stamp with | .ok h => decide (h = { stamp0 with solution := [65] }) | .error _ => false) = true := by decide
+example : (match solve shaF b64A stamp0 26 0 1 with | .ok h => decide (h = { stamp0 with solution := [65] }) | .error _ => false) = true := by decide
+example : WF stamp0 := ⟨by decide, by intro e h; cases h; decide, by decide, by decide, by decide, by decide⟩
+
 end Specter.C31
